@@ -251,7 +251,9 @@ PROPS = {
     ),
     "C16": dict(
         runs=[("sync", "", "syncrun", 100, 2000, 0)],
-        corr={"model:top", "model:blocked", "model:ok", "model:closedret", "model:syncret", "driver-error", "harness-error"},
+        corr={"model:top", "model:blocked", "model:ok", "model:closedret", "model:syncret",
+              "model2:top", "model2:blocked", "model2:ok", "model2:closedret", "model2:syncret", "model2:not-enabled", "model2:fuel",
+              "driver-error", "harness-error"},
         corr_held=False,
         spec={"spec:top-exceeds-cap", "spec:unexpected-error", "spec:call-did-not-return",
               "spec:close-left-writers-blocked", "spec:after-close-not-errclosed", "spec:api-call-hung"}, spec_held=False,
@@ -261,8 +263,10 @@ PROPS = {
              "settled counts (top height, blocked writers, returned nil / ErrClosed, answered notifications) are "
              "compared with the model; every tenth case is the stall scenario (persister wake-up test with a full ping "
              "queue while the merger is between cycles): every API call must return within 30 s; non-trivial = some "
-             "writer was blocked by back-pressure, or the stall scenario",
-        technique="Coq proof (invariants of the wait/notify protocol over any number of writers; Close final; bounded drain) + scenario lock-step on counts, with timeouts",
+             "writer was blocked by back-pressure, or the stall scenario.  The fine-grained model (Sync2) is stepped alongside by "
+             "Sync2Run.apply_label (the label's outside or gated step, then every free step until none is enabled) and compared "
+             "on the same counts (model2:* kinds)",
+        technique="Coq proof (coarse and fine-grained wait/notify models: invariants, Close final, progress with a measure) + lock-step of both models on settled counts, scenarios with timeouts",
     ),
     "C17": dict(runs=[], corr=set(), corr_held=False, spec=set(), spec_held=False, rule="", technique=""),
     "C11": dict(
